@@ -1454,8 +1454,20 @@ func c04StylesOf(l []*c04Item, out []int64) []int64 {
 }
 
 func c04E2eAlgoImpl(c Case) []int64 {
-	out, _, _ := c04E2eObserve(c04ProgOfCase(c), false)
+	l := c04ProgOfCase(c)
+	out, _, _ := c04E2eObserve(l, false)
+	if len(out) > 0 && out[0] == 1 {
+		// the harness's reading of the fragment of resolution_correct_partial (c04InCore) is Spec.core_x, on every program
+		out = append(append([]int64{}, out...), c04B2i(c04InCore(l, 0)))
+	}
 	return out
+}
+
+func c04B2i(b bool) int64 {
+	if b {
+		return 1
+	}
+	return 0
 }
 
 // the declarative side is compared on the partition and on which classes are global only
